@@ -162,6 +162,7 @@ Section Prims.
     map (existsb (fun x => x)) (transpose (fst b) (snd b)).
   Definition bools_any (l : list bool) : bool := existsb (fun x => x) l.
   Definition count_true (l : list bool) : nat := length (filter (fun x => x) l).
+  Definition bools_all (l : list bool) : bool := forallb (fun x => x) l.          (* all(l) *)
 
   (* --- nested frame -> multi-index frame, instance by instance -------------------------------- *)
   (* X.index.get_level_values(-1).unique() of a frame with the default RangeIndex *)
